@@ -456,7 +456,8 @@ class CGenerator:
             new_for_loop_params = ""
             for i in range(number):
                 new_for_loop_params += "_" + str(i) + "_" + ","
-            __process(new_for_loop_params, to_expand, output)
+            if number > 0: # a count of 0 repeats nothing (an empty list would still be one empty item).
+                __process(new_for_loop_params, to_expand, output)
         else:
             raise Exception("Unsupported FOR args.")
 
